@@ -24,6 +24,7 @@ import (
 	"os"
 	"strconv"
 	"strings"
+	"sync/atomic"
 	"testing"
 
 	"github.com/icon-project/goloop/common"
@@ -205,6 +206,17 @@ func (e *env) concretize(d *txDesc, height int64) (module.Transaction, *txRec, e
 	return tx, r, nil
 }
 
+const shortTimeoutMillis = 150
+
+func callsHanger(ops []op) bool {
+	for _, o := range ops {
+		if o.O == "call" && (o.A == "z" || callsHanger(o.Sub)) {
+			return true
+		}
+	}
+	return false
+}
+
 // onlyPayer: the real post-state hash equals the hash of the pre-state in which only the
 // payer's balance was replaced by its balance in the post-state.
 func onlyPayer(pre, post state.WorldSnapshot, payer module.Address) (bool, error) {
@@ -233,7 +245,18 @@ func (e *env) execBlock(parent module.Transition, height int64, steps []*step, c
 		registerTx(tx.ID(), r)
 		defer unregisterTx(tx.ID())
 	}
+	// blocks whose programs call the never-answering contract run with a short transaction timeout
+	hangs := false
+	for _, s := range steps {
+		if s.Op == "tx" && (s.Tx.To == "z" || callsHanger(s.Tx.Prog)) {
+			hangs = true
+		}
+	}
+	if hangs {
+		atomic.StoreInt64(&e.tmoMillis, shortTimeoutMillis)
+	}
 	tr, err := e.runBlock(parent, height, txs, true)
+	atomic.StoreInt64(&e.tmoMillis, 0)
 	if err != nil {
 		return nil, fmt.Errorf("block %d of case %s failed: %w", blk, caseID, err)
 	}
@@ -292,6 +315,9 @@ func (e *env) execBlock(parent module.Transition, height int64, steps []*step, c
 		p := s.Res
 		if p != nil {
 			tag := fmt.Sprintf("blk %d tx %d (%s %s->%s)", blk, i, s.Tx.Kind, s.Tx.From, s.Tx.To)
+			if (p.Code == "timeout") != (module.Status(rc.Status) == module.StatusTimeout) {
+				out.Mism = append(out.Mism, fmt.Sprintf("%s: receipt status %d, spec code %s", tag, rc.Status, p.Code))
+			}
 			if p.Ok != rc.Ok {
 				out.Mism = append(out.Mism, fmt.Sprintf("%s: status ok=%v (code %d), spec ok=%v (%s)", tag, rc.Ok, rc.Status, p.Ok, p.Code))
 			}
@@ -360,14 +386,14 @@ func (e *env) runBehaviour(steps []*step, caseID string) (*caseOut, error) {
 			for n, v := range s.W.Bal {
 				bal[n] = v
 			}
-			if err := setup(e.newSetup(h+1, bal, e.contracts, s.W.St)); err != nil {
+			if err := setup(e.newSetup(h+1, bal, e.scores, e.syncs, s.W.St)); err != nil {
 				return nil, err
 			}
 			if err := setup(e.priceTx(h+1, int(s.Price))); err != nil {
 				return nil, err
 			}
 		case "fund":
-			if err := setup(e.newSetup(h+1, map[string]int64{s.A: s.N}, nil, nil)); err != nil {
+			if err := setup(e.newSetup(h+1, map[string]int64{s.A: s.N}, nil, nil, nil)); err != nil {
 				return nil, err
 			}
 		case "price":
@@ -414,7 +440,7 @@ func TestReplay(t *testing.T) {
 		t.Skip("driven by tools/check.py")
 	}
 	out := tlaio.OpenOut()
-	e, err := newEnv(cfgFromEnv(), []string{"a", "b", "c", "d"}, []string{"x", "y"}, []string{"g"}, fmt.Sprint(tlaio.Seed()))
+	e, err := newEnv(cfgFromEnv(), []string{"a", "b", "c", "d"}, []string{"x", "y"}, []string{"s"}, []string{"g", "z"}, fmt.Sprint(tlaio.Seed()))
 	if err != nil {
 		t.Fatal(err)
 	}
